@@ -21,6 +21,9 @@ CLAIMED = {
     "C08": ("proof", "get_national_summary_estimates in all four modes: size check iff, lower <= pred <= upper, threshold mode within [base, base+total weight] and pred = base + weights of positive-margin contests, called contests contribute no uncertainty; typestate: only top-level aggregate calls write the state it reads (proved on the real aggregate functions for four aggregate lists)", "A-REAL; dictionary keys = contest names (precondition); None-weights variant not covered; argsort/gather contracts", TECH, "DESIGN 4 C08"),
     "C13": ("proof", "schema of the merged unit/state tables for 1..3 estimands and non-ascending levels (key/category columns once, every level's column carries that level's interval), own conformal correction per estimand on one model object", "cross-request independence of VALUES for bootstrap/gaussian is not covered by a proof here (see DESIGN)", TECH, "DESIGN 4 C13"),
     "C17": ("proof", "the nested compute_estimated_margin executed from the real AST: accepted histories are monotone with possible batches only, every whole percent 0..latest, imputed margin in [-1,1] (convex combination), first margin before the first observation, 0 at 0%, correction = final - imputed; discarded histories return 101 rows of missing values with the error type", "A-REAL (float columns; integer dtype truncation is outside the proof), V2, numpy positional contracts, lemma mono_of_succ", TECH + "; ghost instantiation, generalisation of nonlinear subterms", "DESIGN 4 C17"),
+    "C12": ("proof", "effect contracts derived from the real ASTs of everything reachable from get_estimates / the national summary: every RNG construction, DataFrame.sample and scipy bootstrap is seeded from the seed setting, draws come from the per-model generator, no ambient inputs, set iteration order never reaches a value, mutable defaults are not mutated, client fields are written before read, a fresh model per run; plus bounded repeat runs of the real client (not counted as proved)", "call resolution by name (over-approximation); library calls outside the classification table are assumed to be functions of their arguments; same-process float reduction order", "contract-based deductive verification: effect/guard contracts discharged by a sound derivation over the real package ASTs (pyvc.effects) + bounded real runs", "DESIGN 4 C12"),
+    "C18": ("proof", "every persistence site reachable from the two entry points is inventoried from the ASTs and its interprocedural guard implies the option the statement names (z3 over guard atoms); with no options every guard is false; the gaussian write flag IS the 'conformalization' option (real __init__ chains executed); live results are written before the gate; one put per returned table, two for live results, one per gaussian object; every key is whitespace-free under root/election id", "sink primitives listed in contracts/C18.py; components of keys are whitespace-free (precondition); boto3/file system not modelled", "contract-based deductive verification: guard derivation over the package call graph + symbolic execution of the writer functions, z3", "DESIGN 4 C18"),
+    "C19": ("proof", "list_versions proved for all listings, page sizes and windows (open or closed) by induction with the function's own contract at the recursive call: exactly the versions in the window after the marker, each once, in order; the early stop is justified by newest-first order; get() is covered by an exhaustive-small-scope bounded stand-in on the real code (NOT counted as proved)", "A-S3 service model (assumed); generator/queue/try code only bounded", "contract-based deductive verification (recursive contract, sub-list views) + bounded stand-in for get()", "DESIGN 4 C19"),
     "C20": ("proof", "the retry binds against the INSTALLED QuantileRegressionSolver.fit signature, repeats x, y, tau, weights, lambda_, intercept with normalize_weights=False, both failure kinds reach the single non-re-raising handler, every model fit goes through fit_model", "A-QR (how failures surface); numerical sameness of the re-solve not decided", TECH, "DESIGN 4 C20"),
 }
 REASON_WIP = "check under construction in this session: no contract-based check is registered yet (see DESIGN.md section 4 for the planned contracts)"
